@@ -173,7 +173,7 @@ func variants() []*Variant {
 	add(&Variant{Name: "extra-message:P-docs", Prop: "C12", Base: "P-docs", Quick: true, Mut: extraMessage, Structs: "B"})
 	add(&Variant{Name: "extra-dep-file", Prop: "C12", Base: "P-oneof", Quick: true, Mut: ident, Extra: []*d.FileDescriptorProto{extraDepFile()}})
 	// C15: declaration order (sort off)
-	for _, b := range []string{"P-mini", "P-oneof", "P-embed", "P-nest", "P-time", "P-embed-x", "P-mapopt", "P-docs", "P-flags"} {
+	for _, b := range []string{"P-mini", "P-oneof", "P-embed", "P-nest", "P-time", "P-embed-x", "P-mapopt", "P-docs", "P-flags", "P-sorted"} {
 		add(&Variant{Name: "perm-reverse:" + b, Prop: "C15", Base: b, Quick: true, Mut: permute})
 	}
 	for _, b := range []string{"P-mini", "P-multi", "P-scal-S1", "P-embed-x", "P-docs"} {
